@@ -154,6 +154,19 @@ func C14(c *Ctx) {
 					if loop != nil && contains(loop, e.Pos) {
 						bad = append(bad, a.where(e, res.Fn)+": failure returned from inside the scan (outer handlers not tried)")
 					}
+					// … nor before it, unless the stack is known to be empty: whether a handler is in force is what the
+					// stack says, not what a side index remembers
+					if loop != nil && e.Pos < loop.Pos() {
+						emptyStack := false
+						for _, gd := range factsAt(res.Fn.Body, e.Pos) {
+							if gd == "len(p.recoveryStack)==0" {
+								emptyStack = true
+							}
+						}
+						if !emptyStack {
+							bad = append(bad, a.where(e, res.Fn)+": the throw fails before the handler stack is scanned (under ["+strings.Join(factsAt(res.Fn.Body, e.Pos), " ")+"]): handlers in force are those on the stack, a separate record of labels can disagree with it (an inner operator that is popped takes a label out of a set although an enclosing operator still lists it)")
+						}
+					}
 				default:
 					bad = append(bad, a.where(e, res.Fn)+": result flag unknown")
 				}
